@@ -75,9 +75,14 @@ def main():
         for info in generic['rules']:
             if info.get('kind') in (None, 'special') or 'error' in info:
                 continue
-            for k in range(per_rule):
-                A2 = rand_sent(rng, 2, modal, quantified)
-                B2 = rand_sent(rng, 2, modal, quantified)
+            fixed_ops = [(Operator.Negation(C), D), (C, Operator.Negation(D)),
+                         (Operator.Negation(Operator.Negation(C)), Operator.Conjunction(C, D))]
+            for k in range(per_rule + len(fixed_ops)):
+                if k < len(fixed_ops):
+                    A2, B2 = fixed_ops[k]      # operands that are themselves negations: `-s` vs `~s` slips show here
+                else:
+                    A2 = rand_sent(rng, 2, modal, quantified)
+                    B2 = rand_sent(rng, 2, modal, quantified)
                 while B2 == A2:
                     B2 = rand_sent(rng, 2, modal, quantified)
                 proto = rand_sent(rng, 1, modal, quantified, free=x)
